@@ -102,3 +102,70 @@ func c02F64F32(x float64, r float32, err error) {
 	finiteOver := vfAnd(vfOr(x >= overF32, x <= -overF32), vfAnd(x <= 0x1.fffffffffffffp+1023, x >= -0x1.fffffffffffffp+1023))
 	vfAssert("A3", vfImplies(finiteOver, !ok))
 }
+
+// Numeric strings OUTSIDE the shape the numeral term covers (a plain decimal of a 64-bit integer): values beyond 64
+// bits, float notation, infinities, signs and padding. Concrete strings; for each one the reference says which
+// integer it denotes, if it denotes an integer within 64 bits at all. Clause checked (A1/A3): a nil error comes with
+// exactly that integer, within the target's range - never with anything else. (Whether such a string is accepted at all
+// is left open: "1.0" may or may not parse as an integer.)
+type c02Special struct {
+	s      string
+	isInt  bool // denotes an integer that fits (sign, 64-bit magnitude)
+	val    c02Num
+	finite bool // denotes a finite real number (for float targets)
+	f      float64
+}
+
+var c02Specials = []c02Special{
+	{"9223372036854775808", true, c02Num{false, 1 << 63}, true, 9223372036854775808},
+	{"-9223372036854775809", false, c02Num{}, true, -9223372036854775809},
+	{"18446744073709551616", false, c02Num{}, true, 18446744073709551616},
+	{"340282366920938463463374607431768211456", false, c02Num{}, true, 340282366920938463463374607431768211456},
+	{"1e19", false, c02Num{}, true, 1e19},
+	{"-1e30", false, c02Num{}, true, -1e30},
+	{"1e3", true, c02Num{false, 1000}, true, 1000},
+	{"2.0", true, c02Num{false, 2}, true, 2},
+	{"2.5", false, c02Num{}, true, 2.5},
+	{"Inf", false, c02Num{}, false, 0},
+	{"-Inf", false, c02Num{}, false, 0},
+	{"NaN", false, c02Num{}, false, 0},
+	{"+5", true, c02Num{false, 5}, true, 5},
+	{"-0", true, c02Num{false, 0}, true, 0},
+	{"007", true, c02Num{false, 7}, true, 7},
+}
+
+func vh_C02_SpecialStrings() {
+	sp := c02Specials[vfChoose("string", len(c02Specials))]
+	sg := func(x int64) c02Num { return c02FromS(x) }
+	check := func(name string, r c02Num, err error, lo, hi c02Num) {
+		if err != nil {
+			return // refusing is always allowed here
+		}
+		vfAssert(name+"-A3-nil-error-only-for-a-representable-integer", sp.isInt && c02In(sp.val, lo, hi))
+		if sp.isInt {
+			vfAssert(name+"-A1-value", c02Eq(sp.val, r))
+		}
+	}
+	for _, generic := range []bool{true, false} {
+		var m MaybeDef[interface{}]
+		if generic {
+			m = JustGenerics[interface{}](sp.s)
+		} else {
+			m = Maybe.Just(sp.s)
+		}
+		vfNoPanic("nopanic", func() {
+			i, e := m.ToInt()
+			check("ToInt", sg(int64(i)), e, sg(-1<<63), sg(1<<63-1))
+			i32, e := m.ToInt32()
+			check("ToInt32", sg(int64(i32)), e, sg(-1<<31), sg(1<<31-1))
+			i64, e := m.ToInt64()
+			check("ToInt64", sg(i64), e, sg(-1<<63), sg(1<<63-1))
+			// float targets: a nil error comes with a finite denoted number's nearest value (or the infinity the text names)
+			f64, e := m.ToFloat64()
+			if e == nil && sp.finite {
+				vfAssert("ToFloat64-A1-value", f64 == sp.f)
+			}
+		})
+	}
+	vfReach("end")
+}
